@@ -41,9 +41,12 @@ type gRead struct {
 	node int
 }
 
-func groupRun(tr *tracer.T, rng *rand.Rand, nOps int) {
+func groupRun(tr *tracer.T, rng *rand.Rand, nOps int, lagLeader bool) {
 	tr.Emit(map[string]any{"ev": "reset"})
 	var seq atomic.Int64
+	var posRepV atomic.Uint64
+	var lagRep atomic.Uint64 // the replica whose state machine is made to lag (chosen once the shard has a leader)
+	var slow atomic.Uint64
 	// lag control + log positions observed on replica 1
 	var lagMu sync.Mutex
 	lagCond := sync.NewCond(&lagMu)
@@ -55,19 +58,23 @@ func groupRun(tr *tracer.T, rng *rand.Rand, nOps int) {
 		if shard != tableShard.Load() {
 			return
 		}
-		if replica == 1 {
+		if replica == posRepV.Load() {
 			posMu.Lock()
 			for _, e := range ents {
 				positions[e.Index] = append([]byte{}, e.Cmd...)
 			}
 			posMu.Unlock()
 		}
-		if replica == 3 {
+		if replica == lagRep.Load() {
 			lagMu.Lock()
 			for lagging {
 				lagCond.Wait()
 			}
 			lagMu.Unlock()
+		} else if slow.Add(1)%3 == 0 {
+			// the other replicas apply a little slowly now and then, so that concurrent proposals are
+			// committed together and reach Update as ONE batch of several entries
+			time.Sleep(1500 * time.Microsecond)
 		}
 	}
 	defer func() { fsm.VerifUpdateHook = nil }()
@@ -80,8 +87,35 @@ func groupRun(tr *tracer.T, rng *rand.Rand, nOps int) {
 		die("%v", err)
 	}
 	at, _ := c.Engines[0].GetTable("t")
+	// which replica lags: the shard's Raft leader (its log is complete but its state machine is behind: writes are
+	// acknowledged through the other nodes) or a follower
+	leaderRep := uint64(0)
+	for i := 0; i < 400 && leaderRep == 0; i++ {
+		if id, _, ok, err := c.Engines[0].NodeHost.GetLeaderID(at.ClusterID); err == nil && ok {
+			leaderRep = id
+		} else {
+			time.Sleep(5 * time.Millisecond)
+		}
+	}
+	if leaderRep == 0 {
+		die("table shard has no leader")
+	}
+	lag := leaderRep
+	if !lagLeader {
+		lag = leaderRep%3 + 1
+	}
+	lagNode := int(lag) - 1
+	var fast []int // the nodes that do not lag
+	for i := 0; i < 3; i++ {
+		if i != lagNode {
+			fast = append(fast, i)
+		}
+	}
+	posRep := uint64(fast[0] + 1) // log positions are observed on a replica that does not lag
 	tableShard.Store(at.ClusterID)
-	keys := [][]byte{[]byte("a"), []byte("b"), []byte("c"), []byte("d")}
+	posRepV.Store(posRep)
+	lagRep.Store(lag)
+	keys := [][]byte{[]byte("a"), []byte("b"), []byte("c")}
 	var mu sync.Mutex
 	var writes []gWrite
 	var reads []gRead
@@ -96,7 +130,7 @@ func groupRun(tr *tracer.T, rng *rand.Rand, nOps int) {
 		w := gWrite{node: node + 1}
 		switch x := lr.Intn(10); {
 		case x < 4:
-			w.cmd = m.Cmd{T: "PUT", K: k, V: v, Prev: lr.Intn(2) == 0}
+			w.cmd = m.Cmd{T: "PUT", K: k, V: v, Prev: lr.Intn(4) != 0}
 			w.s = seq.Add(1)
 			r, err := e.Put(ctx, &regattapb.PutRequest{Table: []byte("t"), Key: k, Value: v, PrevKv: w.cmd.Prev})
 			w.e = seq.Add(1)
@@ -194,18 +228,22 @@ func groupRun(tr *tracer.T, rng *rand.Rand, nOps int) {
 		mu.Unlock()
 	}
 	var wg sync.WaitGroup
-	for cl := 0; cl < 4; cl++ {
+	for cl := 0; cl < 6; cl++ {
 		wg.Add(1)
 		go func(cl int) {
 			defer wg.Done()
 			lr := rand.New(rand.NewSource(rng.Int63()))
 			for i := 0; i < nOps; i++ {
-				node := lr.Intn(2) // writers and most readers use nodes 1 and 2
+				node := fast[lr.Intn(2)] // writers and most readers use the nodes that do not lag
 				if lr.Intn(2) == 0 {
 					doWrite(lr, node)
+					if lr.Intn(3) == 0 {
+						// the same client reads right after its acknowledged write, through the replica that lags
+						doRead(lr, lagNode)
+					}
 				} else {
 					if lr.Intn(2) == 0 {
-						node = 2 // the replica that lags
+						node = lagNode
 					}
 					doRead(lr, node)
 				}
@@ -240,7 +278,7 @@ func groupRun(tr *tracer.T, rng *rand.Rand, nOps int) {
 	close(stopLag)
 	// ---- emit: writes in revision order (ties / zero revisions keep invocation order), then reads
 	sort.SliceStable(writes, func(i, j int) bool { return writes[i].rev < writes[j].rev })
-	// replica 1 may itself be a little behind the node that acknowledged the last writes: let it catch up
+	// the observed replica may itself be a little behind the node that acknowledged the last writes: let it catch up
 	if len(writes) > 0 {
 		maxRev := writes[len(writes)-1].rev
 		deadline := time.Now().Add(10 * time.Second)
@@ -288,7 +326,7 @@ func init() {
 			}
 			rng := rand.New(rand.NewSource(*seed*12289 + int64(b)))
 			start := tr.Lines() + 1
-			groupRun(tr, rng, *ops)
+			groupRun(tr, rng, *ops, b%2 == 0)
 			fmt.Printf("BEHAVIOUR %d lines %d-%d class 0\n", b, start, tr.Lines())
 		}
 		if err := tr.Close(); err != nil {
